@@ -691,7 +691,7 @@ def parts(tier):
             "seq",
             run_seq,
             strategy=seq_cases(maxops),
-            n={"quick": 8000, "thorough": 16 * 20000},
+            n={"quick": 16000, "thorough": 16 * 15000},
             require={
                 "expiry_miss": 500,
                 "at_expiry_instant": 100,
@@ -710,7 +710,7 @@ def parts(tier):
             "conc",
             run_conc,
             strategy=conc_cases(),
-            n={"quick": 6000, "thorough": 16 * 15000},
+            n={"quick": 12000, "thorough": 16 * 12000},
             require={
                 "switch_inside_cache_method": 500,
                 "blocked_on_cache_lock": 300,
